@@ -29,7 +29,8 @@ impl HeaderRequest {
     #[verifier::external_body]
     pub fn is_valid(&self) -> (b: bool) ensures b == self.valid { unimplemented!() }
 }
-pub struct OutboundFailure {}
+// libp2p request_response::OutboundFailure (the variants, so that code distinguishing them is decided rather than undecided: seed C32-c)
+pub enum OutboundFailure { DialFailure, Timeout, ConnectionClosed, UnsupportedProtocols, Io }
 pub struct InboundFailure {}
 pub enum HeaderExError {
     HeaderNotFound, InvalidResponse, InvalidRequest, RequestCancelled,
@@ -70,20 +71,23 @@ pub open spec fn pending_ok(s: State, queue: PeerKind) -> bool {
 pub open spec fn inflight_ok(s: State) -> bool {
     s.tries_left < MAX_TRIES && !s.request.head && s.respond_to.answers@ == 0 && (s.tries_left == 0 ==> is_archival_kind(s.peer_kind))
 }
-pub struct Pending {}
+// ghost (E13): every state queued so far, in order
+pub struct Pending { pub pushed: Ghost<Seq<State>> }
 impl Pending {
     // self.pending_reqs.entry(kind).or_default().push_back(state): the queue for `kind` receives `state`
     #[verifier::external_body]
     pub fn push_back(&mut self, kind: PeerKind, state: State)
         requires pending_ok(state, kind)
+        ensures final(self).pushed@ == old(self).pushed@.push(state)
     { unimplemented!() }
 }
 pub struct ReqId { pub v: u64 }
-pub struct Reqs {}
+// ghost (E13): the in-flight state taken out last
+pub struct Reqs { pub last_removed: Ghost<Option<State>> }
 impl Reqs {
     #[verifier::external_body]
     pub fn remove(&mut self, id: &ReqId) -> (r: Option<State>)
-        ensures r.is_some() ==> inflight_ok(r.unwrap())
+        ensures r.is_some() ==> inflight_ok(r.unwrap()), final(self).last_removed@ == r
     { unimplemented!() }
     #[verifier::external_body]
     pub fn insert(&mut self, id: ReqId, state: State)
@@ -145,6 +149,15 @@ pub struct HeaderExClientHandler {
     pub cancellation_token: CancellationToken,
 }
 
+// "sent at most three times": a failed attempt re-queues the request with exactly the tries it had left while in flight (the
+// send is what uses one up), whatever the kind of failure - at most one re-queue per failure
+pub open spec fn requeued_same_budget(a: HeaderExClientHandler, b: HeaderExClientHandler) -> bool {
+    ||| b.pending_reqs.pushed@ == a.pending_reqs.pushed@
+    ||| b.pending_reqs.pushed@.len() == a.pending_reqs.pushed@.len() + 1 && b.reqs.last_removed@.is_some()
+        && b.pending_reqs.pushed@.last().tries_left == b.reqs.last_removed@.unwrap().tries_left
+        && b.pending_reqs.pushed@.last().request == b.reqs.last_removed@.unwrap().request
+}
+
 //@fn - :: can_retry
 //@props C32
 fn can_retry(state: &State, err: &HeaderExError) -> (b: bool)
@@ -179,6 +192,7 @@ impl HeaderExClientHandler {
 //@fn impl<S> HeaderExClientHandler<S> :: on_failure
 //@props C32
     pub fn on_failure(&mut self, peer: u64, request_id: ReqId, error: OutboundFailure)
+        ensures requeued_same_budget(*old(self), *final(self)),
 //@sub E9 "self.pending_reqs .entry(peer_kind) .or_default() .push_back(State { peer_kind, ..state });" => "self.pending_reqs.push_back(peer_kind, State { peer_kind, ..state });"
 //@end
 
@@ -215,6 +229,7 @@ impl HeaderExClientHandler {
     fn poll__on_result(&mut self, req_id: ReqId, res: Result<Vec<u64>, HeaderExError>)
         // decode_and_verify_responses never reports an inbound failure (C28)
         requires res is Err ==> !(res->Err_0 is InboundFailure)
+        ensures requeued_same_budget(*old(self), *final(self)),
 //@sub E9 "if let Err(ref e) = res && can_retry(&state, e) {" => "if (match &res { Err(e) => can_retry(&state, e), Ok(_) => false }) {"
 //@sub E11 "continue;" all => "return;"
 //@sub E9 "self.pending_reqs .entry(peer_kind) .or_default() .push_back(State { peer_kind, ..state });" => "self.pending_reqs.push_back(peer_kind, State { peer_kind, ..state });"
